@@ -26,6 +26,7 @@ func init() {
 			c.SaveProducesNothing(ob3, r)
 			ob4 := c.R.Ob("C08.4", "sumcheck/S2", "the prefetch registers the account and asset a save will read", 2)
 			c.S2(ob4, famPrefetch)
+			obFetchFirst(c, "C08.6")
 		},
 	}
 }
